@@ -326,6 +326,11 @@ static const cprog_t progs[] = {
   { .name = "H4", .nthreads = 2, .quiescence = 1,
     .setup = { { { C_MALLOC, 17 * MiB, 0 }, { C_MALLOC, S8, 1 } }, { { C_INIT } } },
     .run   = { { { C_COLLECT, 1 }, { C_MALLOC, 17 * MiB, 2 } }, { { C_FREE, 0 } } } },
+  /* H4n: the same with a non-forced collect: the huge segment goes back to its arena without the arena being purged at once, and
+     the next huge block re-uses the arena blocks as they are */
+  { .name = "H4n", .nthreads = 2, .quiescence = 1,
+    .setup = { { { C_MALLOC, 17 * MiB, 0 }, { C_MALLOC, S8, 1 } }, { { C_INIT } } },
+    .run   = { { { C_COLLECT, 0 }, { C_MALLOC, 17 * MiB, 2 }, { C_COLLECT, 0 }, { C_MALLOC, 17 * MiB, 3 } }, { { C_FREE, 0 } } } },
   /* H5: the last block of a full page is freed remotely while the owner frees another block of it locally and retires it */
   { .name = "H5", .nthreads = 2, .quiescence = 1,
     .setup = { { { C_FILL, S8, 0, 9 } }, { { C_INIT } } },
